@@ -510,8 +510,8 @@ class PassiveState(State):
                 )
 
             occupation_numbers = get_postselected_fock_basis(
-                d=self.d,
-                cutoff=self._config.cutoff,
+                d=self.total_number_of_modes,
+                cutoff=self._config.cutoff + sum(self._get_postselected_photons()),
                 postselected_modes=self._get_postselected_modes(),
                 postselected_photons=self._get_postselected_photons(),
             )
